@@ -5,6 +5,7 @@ import (
 	"fmt"
 	"math/big"
 	"sort"
+	"strings"
 	"testing"
 
 	sdk "github.com/cosmos/cosmos-sdk/types"
@@ -188,6 +189,10 @@ func runConfCase(ci interface{}, rec *pbt.Rec) *pbt.Failure {
 		case 0:
 			return &mtypes.SignerSetTxConfirmation{SignerSetNonce: t.ss.Nonce + bump, ExternalSigner: signer.Hex(), Signature: sig}
 		case 1:
+			if unknown && t.batch.BatchNonce%2 == 1 {
+				// no such outgoing tx either: the token id in another spelling (ids are strings; the store key is the string)
+				return &mtypes.BatchTxConfirmation{ExternalTokenId: strings.ToLower(t.batch.ExternalTokenId), BatchNonce: t.batch.BatchNonce, ExternalSigner: signer.Hex(), Signature: sig}
+			}
 			return &mtypes.BatchTxConfirmation{ExternalTokenId: t.batch.ExternalTokenId, BatchNonce: t.batch.BatchNonce + bump, ExternalSigner: signer.Hex(), Signature: sig}
 		default:
 			return &mtypes.ContractCallTxConfirmation{InvalidationScope: t.call.InvalidationScope, InvalidationNonce: t.call.InvalidationNonce + bump, ExternalSigner: signer.Hex(), Signature: sig}
